@@ -347,13 +347,21 @@ def shard(ctx):
             os.makedirs(os.path.join(sdir, "tn", "specs", "regression", "deep"))
             shutil.copy(rpath, os.path.join(sdir, "tn", "rr.guard"))
             open(os.path.join(sdir, "tn", "specs", "rr_ok_tests.json"), "w").write(good_ttext)
-            open(os.path.join(sdir, "tn", "specs", "regression", "deep" if t % 2 else "", os.path.basename(tpath)), "w").write(ttext)
+            scen_path = os.path.join(sdir, "tn", "specs", "regression", "deep" if t % 2 else "", os.path.basename(tpath))
+            open(scen_path, "w").write(ttext)
+            # an all-matching test file on either side of the scenario file, by name and by modification time
+            open(os.path.join(sdir, "tn", "specs", "zz_ok_tests.json"), "w").write(good_ttext)
+            os.utime(os.path.join(sdir, "tn", "specs", "rr_ok_tests.json"), (1700000000, 1700000000))
+            os.utime(scen_path, (1700001000, 1700001000))
+            os.utime(os.path.join(sdir, "tn", "specs", "zz_ok_tests.json"), (1700002000, 1700002000))
             for fmt in ("plain", "json", "yaml", "junit"):
                 for layout in ("files", "dir", "dir-multi", "files-nested"):
                     argv = ["test"] + (["-r", rpath, "-t", tpath] if layout == "files" else (["-r", os.path.join(sdir, "tn", "rr.guard"), "-t", os.path.join(sdir, "tn", "specs")] if layout == "files-nested"
                                                                                     else ["-d", os.path.join(sdir, "t" if layout == "dir" else "tm")]))
                     if fmt != "plain":
                         argv += ["-o", fmt]
+                    if layout == "files-nested":
+                        argv += rng.choice([[], ["-a"], ["-m"]])
                     code, out, err = core.run_cli(argv)
                     ctx.res.cases += 1
                     # the exit code does not depend on how the terminal is described: colour forced on / off gives the same code
@@ -369,6 +377,10 @@ def shard(ctx):
                     if layout == "dir-multi":
                         case["multi"] = multi
                         case["position"] = "%d/%d" % (pos, k)
+                    if layout == "files-nested":
+                        case["good_tests"] = good_ttext
+                        case["deep"] = bool(t % 2)
+                        case["flags"] = [a_ for a_ in argv if a_ in ("-a", "-m")]
                     if m is None:
                         ctx.inconclusive("crash-exit-%s" % code)
                         continue
@@ -401,6 +413,16 @@ def replay(case, w):
             for rel, content in case["multi"].items():
                 open(os.path.join(sdir, "tm", rel), "w").write(content)
         argv = ["test"] + (["-r", rpath, "-t", tpath] if case["layout"] == "files" else ["-d", os.path.join(sdir, "t" if case["layout"] == "dir" else "tm")])
+        if case["layout"] == "files-nested":
+            os.makedirs(os.path.join(sdir, "tn", "specs", "regression", "deep"))
+            shutil.copy(rpath, os.path.join(sdir, "tn", "rr.guard"))
+            scen_path = os.path.join(sdir, "tn", "specs", "regression", "deep" if case.get("deep") else "", os.path.basename(tpath))
+            open(scen_path, "w").write(case["tests"])
+            for nm_, mt_ in (("rr_ok_tests.json", 1700000000), ("zz_ok_tests.json", 1700002000)):
+                open(os.path.join(sdir, "tn", "specs", nm_), "w").write(case.get("good_tests", "[]"))
+                os.utime(os.path.join(sdir, "tn", "specs", nm_), (mt_, mt_))
+            os.utime(scen_path, (1700001000, 1700001000))
+            argv = ["test", "-r", os.path.join(sdir, "tn", "rr.guard"), "-t", os.path.join(sdir, "tn", "specs")] + list(case.get("flags", []))
         if case["fmt"] != "plain":
             argv += ["-o", case["fmt"]]
         code, out, err = core.run_cli(argv)
